@@ -76,6 +76,17 @@ def check(prop, ev, bounds=None, cvc5_cross=False):
     except Unencodable as e:
         inconc.append(f"unencodable: {e}")
         return viol, inconc, known_lines
+    import runnerlemmas
+    try:
+        robls, rfns = runnerlemmas.obligations(S)
+        obls = obls + robls
+        fns = sorted(set(fns) | set(rfns))
+        users, badusers = runnerlemmas.audit_stdlib_closure_users()
+        ev.cov["stdlib_closure_users"] = users
+        if badusers:
+            inconc.append(f"stdlib closure function drives its closure outside the four Runner methods: {badusers}")
+    except Unencodable as e:
+        inconc.append(f"unencodable (Runner): {e}")
     ev.cov["functions_encoded"] = [f"{n} [mir sha256:{h}]" for n, h in fns]
     ev.cov["node_stats"] = stats
     ev.cov["expression_impls_audited"] = found
@@ -113,7 +124,11 @@ def check(prop, ev, bounds=None, cvc5_cross=False):
         lab = child_label(S.types.struct_fields(node if node not in ("AssignVariant",) else "Variant", o.ex.hint_mod) or [])
         res = None
         try:
-            res = make_witness(o, model, lab)
+            if ":Runner::" in role:
+                rw = runnerlemmas.runner_witness(role)
+                res = (rw[0], rw[1], {}) if rw else None
+            else:
+                res = make_witness(o, model, lab)
         except Exception as e:  # noqa
             inconc.append(f"{role}: witness builder failed: {e}")
             continue
